@@ -136,6 +136,12 @@ fn build_c12_tree(root: &Path, bits: usize, decl_yaml: &str, trace: &Path) {
             }
             _ => write(&p, e.as_bytes()),
         }
+        if *e == "out/sub/z.o" {
+            // matching files whose names are not valid UTF-8, one of them below a directory with such a name
+            use std::os::unix::ffi::OsStrExt;
+            write(&root.join("out/sub").join(std::ffi::OsStr::from_bytes(b"caf\xE9.o")), b"non-UTF-8 name");
+            write(&root.join("out/sub").join(std::ffi::OsStr::from_bytes(b"r\xE9sum\xE9")).join("inner.o"), b"below a non-UTF-8 directory");
+        }
     }
     if bits & (1 << 6) != 0 {
         write(&root.join(".zinoma/other.txt"), b"unrelated file in the work dir");
